@@ -457,7 +457,7 @@ var clauseKeywords = map[string]bool{
 	"property": true, "mode": true, "requires": true, "ensures": true, "modifies": true, "reads": true,
 	"loop": true, "assert": true, "pure": true, "inline": true, "trusted": true, "unproved": true,
 	"assume": true, "option": true, "expect": true, "def": true, "unfold": true, "macro": true, "guards": true,
-	"invariant": true, "rely": true, "ghost": true, "replay": true, "package": true, "end": true, "ghostfield": true, "let": true, "callsite": true, "closeonly": true, "lockassume": true, "ghostdef": true, "assumeat": true,
+	"invariant": true, "rely": true, "ghost": true, "replay": true, "package": true, "end": true, "ghostfield": true, "let": true, "callsite": true, "closeonly": true, "lockassume": true, "ghostdef": true, "assumeat": true, "trust-ensures": true,
 }
 
 func firstWord(s string) (string, string) {
@@ -747,6 +747,15 @@ func ParseContractFile(path string, pkg string) (*ContractFile, error) {
 					cur.Reads = append(cur.Reads, c)
 				}
 			}
+		case "trust-ensures":
+			// a postcondition the callers may rely on but that is not checked against the body (ghost bookkeeping whose
+			// meaning lives outside the function); listed as an assumption. The rest of the contract is verified.
+			c, err := mkClause("ensures", rest, l.line)
+			if err != nil {
+				return nil, err
+			}
+			c.Label = "trusted"
+			cur.Ensures = append(cur.Ensures, c)
 		case "requires", "ensures", "invariant", "rely", "assert", "def":
 			c, err := mkClause(w, rest, l.line)
 			if err != nil {
